@@ -31,7 +31,7 @@ pub fn adv_of(gid: u32) -> i32 {
 }
 
 /// groups: (first char, last char, first glyph), sorted by char.
-fn build_font(groups: &[(u32, u32, u32)], num_glyphs: u16, gdef_class: Option<u16>) -> Vec<u8> {
+fn build_font(groups: &[(u32, u32, u32)], num_glyphs: u16, gdef_class: Option<u16>, kern_pairs: &[(u16, u16, i16)]) -> Vec<u8> {
     let mut head = Vec::new();
     be32(&mut head, 0x00010000); // version
     be32(&mut head, 0x00010000); // fontRevision
@@ -104,6 +104,34 @@ fn build_font(groups: &[(u32, u32, u32)], num_glyphs: u16, gdef_class: Option<u1
         be16(&mut gdef, class);
         tables.insert(0, (b"GDEF", gdef));
     }
+    if !kern_pairs.is_empty() {
+        // OpenType 'kern' version 0, one horizontal format-0 subtable; pairs sorted by (left, right)
+        let mut pairs = kern_pairs.to_vec();
+        pairs.sort();
+        let np = pairs.len() as u16;
+        let mut es = 0u16;
+        while (2u32 << es) <= np as u32 {
+            es += 1;
+        }
+        let sr = (1u16 << es) * 6;
+        let mut kern = Vec::new();
+        be16(&mut kern, 0); // version
+        be16(&mut kern, 1); // nTables
+        be16(&mut kern, 0); // subtable version
+        be16(&mut kern, 14 + 6 * np); // length
+        be16(&mut kern, 0x0001); // coverage: horizontal, format 0
+        be16(&mut kern, np);
+        be16(&mut kern, sr);
+        be16(&mut kern, es);
+        be16(&mut kern, np * 6 - sr);
+        for (l, r, v) in &pairs {
+            be16(&mut kern, *l);
+            be16(&mut kern, *r);
+            be16(&mut kern, *v as u16);
+        }
+        tables.push((b"kern", kern));
+        tables.sort_by(|a, b| a.0.cmp(b.0));
+    }
     let n = tables.len() as u16;
     let mut out = Vec::new();
     be32(&mut out, 0x00010000);
@@ -164,6 +192,12 @@ fn gen_font(space: bool, ign_mapped: bool, spec: &[(u32, u32)]) -> GenFont {
 /// classes: 1 base, 2 ligature, 3 mark, 4 component, anything else undefined.  Default ignorables are
 /// decided on the character, never on the glyph class.
 fn gen_font_gdef(space: bool, ign_mapped: bool, spec: &[(u32, u32)], gdef_class: Option<u16>) -> GenFont {
+    gen_font_full(space, ign_mapped, spec, gdef_class, false)
+}
+
+/// `kern`: a legacy 'kern' table kerning every ordered pair of the Latin letters a..h (no GSUB/GPOS): the pair
+/// search must step over default ignorables exactly as over nothing.
+fn gen_font_full(space: bool, ign_mapped: bool, spec: &[(u32, u32)], gdef_class: Option<u16>, kern: bool) -> GenFont {
     let mut cps: Vec<u32> = letters();
     if space {
         cps.push(0x20);
@@ -185,9 +219,18 @@ fn gen_font_gdef(space: bool, ign_mapped: bool, spec: &[(u32, u32)], gdef_class:
         }
         gid += 1;
     }
-    let data = build_font(&groups, gid as u16, gdef_class);
-    let name = format!("{}{}{}", if space { "S" } else { "N" }, if ign_mapped { "M" } else { "U" }, gdef_class.map(|c| format!("g{}", c)).unwrap_or_default());
-    let mut f = GenFont { name, data, groups, space: None, num_glyphs: gid };
+    let name = format!("{}{}{}{}", if space { "S" } else { "N" }, if ign_mapped { "M" } else { "U" }, gdef_class.map(|c| format!("g{}", c)).unwrap_or_default(), if kern { "k" } else { "" });
+    let mut f = GenFont { name, data: Vec::new(), groups, space: None, num_glyphs: gid };
+    let mut pairs: Vec<(u16, u16, i16)> = Vec::new();
+    if kern {
+        for a in 0x61..=0x68u32 {
+            for b in 0x61..=0x68u32 {
+                let v = -(20 + 7 * (a - 0x61) as i16 + 3 * (b - 0x61) as i16) * if (a + b) % 3 == 0 { -1 } else { 1 };
+                pairs.push((f.gid(a) as u16, f.gid(b) as u16, v));
+            }
+        }
+    }
+    f.data = build_font(&f.groups, gid as u16, gdef_class, &pairs);
     if space {
         f.space = Some(f.gid(0x20));
     }
@@ -725,7 +768,10 @@ fn search(args: &[String]) {
     let per = arg_u64(args, "--per", 2);
     let all = arg_u64(args, "--all", 0) != 0;
     let spec = parse_spec(args);
-    let fonts = gen_fonts(&spec);
+    let mut fonts = gen_fonts(&spec);
+    // fonts with a legacy kern table (predicate only: the simple pipeline model of the API correspondence has no kerning)
+    fonts.push(gen_font_full(true, true, &spec, None, true));
+    fonts.push(gen_font_full(false, false, &spec, None, true));
     let faces: Vec<Face> = fonts.iter().map(|f| Face::from_slice(&f.data, 0).expect("generated font")).collect();
     let letters = letters();
     let mut r = Rng::new(seed ^ 0xC135);
@@ -793,7 +839,9 @@ fn search(args: &[String]) {
 
 fn one(args: &[String]) {
     let spec = parse_spec(args);
-    let fonts = gen_fonts(&spec);
+    let mut fonts = gen_fonts(&spec);
+    fonts.push(gen_font_full(true, true, &spec, None, true));
+    fonts.push(gen_font_full(false, false, &spec, None, true));
     let name = arg_str(args, "--font").unwrap_or("SM");
     let fi = fonts.iter().position(|f| f.name == name).unwrap_or(0);
     let face = Face::from_slice(&fonts[fi].data, 0).expect("generated font");
